@@ -3,7 +3,7 @@ Spec: spec/metacas/MetaCAS.tla — metadata fields (some sharing a metadata byte
 the real transition loops at atomic-operation granularity: load; compare-exchange (for sub-byte
 fields: byte load + byte compare-exchange, as SideMetadataSpec / HeaderMetadataSpec implement it);
 retry. TLC checks AtMostOnce and Property (exactly one winner per transitionable field, final value
-= transitioned value, neighbours intact) for all scenarios up to 4 threads and rejects four mutants.
+= transitioned value, neighbours intact) for all scenarios up to 4 threads and rejects five mutants.
 Binding: racedrive cas races 2..4 REAL threads on MarkState::test_and_mark, ImmixSpace::attempt_mark,
 LargeObjectSpace::test_and_mark, ObjectBarrier::log_object, pin_object / unpin_object and plain
 mark / log stores, on side and in-header layouts, neighbouring fields included; every atomic
@@ -26,9 +26,11 @@ META = {
             "perturbation; all atomic steps are recorded and validated by TLC per round. Real-thread "
             "schedules are sampled; bit positions are covered by the layouts, not exhaustively.",
     "note": "Trusted: TLC, the recorder hook (see C17), the hooks that expose the private "
-            "attempt_mark / test_and_mark / log_object. Finding (recorded): pin_object / unpin_object "
-            "are single compare-exchanges on a shared byte and fail spuriously when a neighbouring "
-            "field of that byte changes concurrently.",
+            "attempt_mark / test_and_mark / log_object. Finding made by this check and repaired in "
+            "mmtk-core (fix: pin_object / unpin_object retry ...): the two functions were single "
+            "compare-exchanges on a shared byte and failed spuriously when a neighbouring field of "
+            "that byte changed concurrently; the unrepaired behaviour is kept as the model mutant "
+            "pin_single_shot.",
     "technique": "TLA+ spec at atomic-operation granularity model-checked with TLC (+ mutants, "
                  "+ finding configuration); real-thread races recorded per atomic step and validated by "
                  "TLC searching the interleavings (Trace_MetaCAS.tla)",
@@ -69,20 +71,18 @@ def run(ctx):
     if not quick:
         builds.append(("release", ctx.build("racedrive", release=True)))
 
-    acts = ["Load", "ByteLoad", "Cas", "Store", "Return"]
+    acts = ["Load", "ByteLoad", "Cas", "PinLoad", "Store", "Return"]
     for n in ((2, 3) if quick else (2, 3, 4)):
         ctx.tlc_mc("MetaCAS.tla", "MC_MetaCAS_%d.cfg" % n, spec_dir=sd, require_actions=acts,
                    workers=4, env=rc.JVM_ENV, timeout=3000)
     if not quick:
         ctx.tlc_mc("MetaCAS.tla", "MC_MetaCAS_live.cfg", spec_dir=sd, workers=4, env=rc.JVM_ENV, count=False)
-    for m in ("cas_reports_success", "cas_plain", "no_retry", "rmw_store"):
+    # pin_single_shot = pin_object / unpin_object as they were before the repair (mmtk-core commit
+    # "fix: pin_object / unpin_object retry ..."): one CAS that fails spuriously next to an active
+    # neighbour in the same byte; the model of that code must violate the property
+    for m in ("cas_reports_success", "cas_plain", "no_retry", "rmw_store", "pin_single_shot"):
         ctx.tlc_mc("MetaCAS.tla", "MC_MetaCAS_mutant_%s.cfg" % m, spec_dir=sd, expect_violation=True,
                    workers=1, env=rc.JVM_ENV)
-    # the recorded finding at design level: the model of the real single-shot pin CAS violates the
-    # property next to an active neighbour (this configuration must FAIL; if it ever passes the
-    # model no longer describes the code)
-    ctx.tlc_mc("MetaCAS.tla", "MC_MetaCAS_finding_pin_neighbour.cfg", spec_dir=sd, expect_violation=True,
-               workers=1, env=rc.JVM_ENV)
 
     rounds = 400 if quick else 8000
     jobs, files = [], []
